@@ -9,6 +9,14 @@ TB = ("trusted base: rustc's MIR construction and Instance resolution for the re
       "mir-opt-level 0, overflow checks on), the fact extractor /verif/driver, std/rpds/arcstr behaving as documented")
 
 CLAIMS = {
+ 'C13': dict(
+   technique="MIR scrutinee-provenance analysis over the decoded word registry + who-may-call rules (custom rustc_private extractor, Python rules)",
+   text=("Static, all words x all argument positions: every discriminant switch on a Cell in a function reachable from any dictionary word is "
+         "shown to look through Cell::value() or to be tag-aware (explicit WithTag arm); Cell::value strips the wrapper and with_tags never nests; "
+         "the only producers of tagged values are the tag/fmt words, the binary readers and two internal sites; the only readers of tags are tag "
+         "words, the printing path, the assert-message lookup and close-bitstr (str>number radix is a reviewed exception). Necessary for the "
+         "property and sufficient for words that never see the wrapper; value-level equality of results is not decided."),
+   ref='§3 C13'),
  'C02': dict(
    technique="MIR pairing analysis: who-may-write + inverse-arm matching + payload provenance (custom rustc_private extractor, Python rules)",
    text=("Static, all-paths: decides the mechanism 'every machine-state mutation logs its inverse'. For every function the VM can reach at "
